@@ -1,8 +1,323 @@
-(* C15 — rational arithmetic is exact in both representations.  Theorems only (work in progress). *)
-From Coq Require Import ZArith QArith.
-From OsmtV.Rat Require Import FRModel.
+(* C15 — rational arithmetic is exact in both representations.  Theorems only; the model is
+   Rat/FRModel.v (a branch-by-branch transcription of FastRational.h/.cc, extracted and compared
+   with the implementation on every check), proofs are in Rat/FRProofs*.v.
+
+   Reading guide.  `fr` = Word num den | Big q;  `wf` = the class invariant (word form: int32 /
+   uint32 ranges, den >= 1, lowest terms; big form: lowest terms and does NOT fit a word);
+   `value : fr -> Q`.  Every operation returns `res fr` = Ok x | Err e, where Err is undefined
+   behaviour (signed overflow, division by zero), abort(), or a GMP division by zero.  The shape
+        exists x, op a b = Ok x /\ wf x /\ value x == <exact result>
+   therefore says at once: no UB / abort / wrap on the way (for all well-formed operands), the
+   result is canonical (so equal values have equal representation and hash, see repr_unique),
+   and it is the mathematically exact result. *)
+From Coq Require Import ZArith QArith Qround.
+From OsmtV.Rat Require Import FRModel FRBase FRGcd FRProofsAdd FRProofsMul FRProofsCtor FRProofsCmp
+  FRProofsRound FRProofsGcd FRProofsDivMod FRProofsRepr CMacro Gen_CheckMacros CheckMacrosProofs.
 Local Open Scope Z_scope.
 
-Theorem gcd_word_sign_refuted_tmp : fr_gcd (Word 4 1) (Word (-6) 1) = Ok (Word (-2) 1).
+(* ---------------------------------------------------------------------------------------- *)
+(* arithmetic core                                                                           *)
+
+Theorem addition_exact : forall a b, wf a -> wf b ->
+  exists x, fr_add a b = Ok x /\ wf x /\ value x == value a + value b.
+Proof. exact fr_add_exact. Qed.
+Print Assumptions addition_exact.
+
+Theorem subtraction_exact : forall a b, wf a -> wf b ->
+  exists x, fr_sub a b = Ok x /\ wf x /\ value x == value a - value b.
+Proof. exact fr_sub_exact. Qed.
+Print Assumptions subtraction_exact.
+
+Theorem multiplication_exact : forall a b, wf a -> wf b ->
+  exists x, fr_mul a b = Ok x /\ wf x /\ value x == value a * value b.
+Proof. exact fr_mul_exact. Qed.
+Print Assumptions multiplication_exact.
+
+Theorem division_exact : forall a b, wf a -> wf b -> ~ value b == 0 ->
+  exists x, fr_div a b = Ok x /\ wf x /\ value x == value a / value b.
+Proof. exact fr_div_exact. Qed.
+Print Assumptions division_exact.
+
+(* the in-place forms (operator+=, -=, *=, /=) *)
+Theorem assign_forms_exact : forall a b, wf a -> wf b ->
+  (exists x, fr_addA a b = Ok x /\ wf x /\ value x == value a + value b) /\
+  (exists x, fr_subA a b = Ok x /\ wf x /\ value x == value a - value b) /\
+  (exists x, fr_mulA a b = Ok x /\ wf x /\ value x == value a * value b) /\
+  (~ value b == 0 -> exists x, fr_divA a b = Ok x /\ wf x /\ value x == value a / value b).
+Proof.
+  intros a b Ha Hb. split; [exact (fr_addA_exact a b Ha Hb)|]. split; [exact (fr_subA_exact a b Ha Hb)|].
+  split; [exact (fr_mulA_exact a b Ha Hb) | exact (fr_divA_exact a b Ha Hb)].
+Qed.
+Print Assumptions assign_forms_exact.
+
+(* unary minus, negate() (INT_MIN included: the result 2^31 is a big number), inverse() *)
+Theorem negation_exact : forall a, wf a ->
+  (exists x, fr_neg a = Ok x /\ wf x /\ value x == - value a) /\
+  (exists x, fr_negate a = Ok x /\ wf x /\ value x == - value a).
+Proof. intros a Ha. split; [exact (fr_neg_exact a Ha) | exact (fr_negate_exact a Ha)]. Qed.
+Print Assumptions negation_exact.
+
+Theorem inverse_exact : forall a, wf a -> ~ value a == 0 ->
+  exists x, fr_inv a = Ok x /\ wf x /\ value x == / value a.
+Proof. exact fr_inv_exact. Qed.
+Print Assumptions inverse_exact.
+
+(* ---------------------------------------------------------------------------------------- *)
+(* comparison, equality, sign, integrality, numerator / denominator, floor, ceiling          *)
+
+Theorem compare_exact : forall a b, wf a -> wf b ->
+  fr_compare a b = Ok (match Qcompare (value a) (value b) with Lt => -1 | Eq => 0 | Gt => 1 end).
+Proof. exact fr_compare_exact. Qed.
+Print Assumptions compare_exact.
+
+Theorem equality_exact : forall a b, wf a -> wf b -> (fr_eq a b = true <-> value a == value b).
+Proof. exact fr_eq_exact. Qed.
+Print Assumptions equality_exact.
+
+Theorem sign_exact : forall a, fr_sign a = match Qcompare (value a) 0 with Lt => -1 | Eq => 0 | Gt => 1 end.
+Proof. intros a. rewrite fr_sign_exact. exact (sign_is_sign (value a)). Qed.
+Print Assumptions sign_exact.
+
+Theorem isInteger_exact : forall a, wf a -> (fr_isInteger a = true <-> exists z, value a == z # 1).
+Proof. exact fr_isInteger_exact. Qed.
+Print Assumptions isInteger_exact.
+
+(* get_num / get_den return numerator and denominator of the value in lowest terms
+   (wf_value_canonical: the value of a well-formed number is in lowest terms) *)
+Theorem numerator_denominator_exact : forall a, wf a ->
+  Z.gcd (Qnum (value a)) (Zpos (Qden (value a))) = 1 /\
+  wf (fr_get_num a) /\ value (fr_get_num a) == Qnum (value a) # 1 /\
+  wf (fr_get_den a) /\ value (fr_get_den a) == Zpos (Qden (value a)) # 1.
+Proof.
+  intros a Ha. split; [exact (wf_value_canonical a Ha)|].
+  destruct (fr_get_num_exact a Ha) as [H1 H2]. destruct (fr_get_den_exact a Ha) as [H3 H4]. tauto.
+Qed.
+Print Assumptions numerator_denominator_exact.
+
+Theorem floor_ceil_exact : forall a, wf a ->
+  (exists x, fr_floor a = Ok x /\ wf x /\ value x == Qfloor (value a) # 1) /\
+  (exists x, fr_ceil a = Ok x /\ wf x /\ value x == Qceiling (value a) # 1).
+Proof. intros a Ha. split; [exact (fr_floor_exact a Ha) | exact (fr_ceil_exact a Ha)]. Qed.
+Print Assumptions floor_ceil_exact.
+
+(* constructors: FastRational(word), (uint32_t), (mpz_t), ("n/d"), (word n, uword d) *)
+Theorem constructors_exact :
+  (forall x, WORD_MIN <= x <= WORD_MAX -> wf (of_word x) /\ value (of_word x) == x # 1) /\
+  (forall x, 0 <= x <= UWORD_MAX -> wf (of_uint32 x) /\ value (of_uint32 x) == x # 1) /\
+  (forall z, wf (of_mpz z) /\ value (of_mpz z) == z # 1) /\
+  (forall n d, wf (of_string n d) /\ value (of_string n d) == n # d) /\
+  (forall n d, WORD_MIN <= n <= WORD_MAX -> 1 <= d <= UWORD_MAX ->
+     exists x, of_word_uword n d = Ok x /\ wf x /\ value x == n # Z.to_pos d).
+Proof.
+  split; [exact of_word_exact|]. split; [exact of_uint32_exact|]. split; [exact of_mpz_exact|].
+  split; [exact of_string_exact | exact of_word_uword_exact].
+Qed.
+Print Assumptions constructors_exact.
+
+(* ---------------------------------------------------------------------------------------- *)
+(* one representation per value; hash; independence of the representation                    *)
+
+Theorem repr_unique : forall a b, wf a -> wf b -> value a == value b -> a = b.
+Proof. exact repr_unique_lemma. Qed.
+Print Assumptions repr_unique.
+
+Theorem hash_respects_eq : forall a b, wf a -> wf b -> value a == value b -> fr_hash a = fr_hash b.
+Proof. exact hash_respects_eq_lemma. Qed.
+Print Assumptions hash_respects_eq.
+
+(* whatever form the operands have, the word fast path returns exactly the object the GMP path
+   (ensure_mpq_valid; mpq_op; try_fit_word) returns; the in-place forms agree with the others *)
+Theorem path_independent : forall a b, wf a -> wf b ->
+  fr_add a b = big_add a b /\ fr_sub a b = big_sub a b /\ fr_mul a b = big_mul a b /\
+  (~ value b == 0 -> fr_div a b = big_div a b) /\
+  fr_addA a b = fr_add a b /\ fr_subA a b = fr_sub a b /\ fr_mulA a b = fr_mul a b /\
+  (~ value b == 0 -> fr_divA a b = fr_div a b).
+Proof.
+  intros a b Ha Hb. split; [exact (add_path_independent a b Ha Hb)|]. split; [exact (sub_path_independent a b Ha Hb)|].
+  split; [exact (mul_path_independent a b Ha Hb)|]. split; [exact (div_path_independent a b Ha Hb)|].
+  exact (assign_forms_agree a b Ha Hb).
+Qed.
+Print Assumptions path_independent.
+
+(* ---------------------------------------------------------------------------------------- *)
+(* intermediate results do not leave their machine type (interval reasoning, all operands)    *)
+
+(* template gcd on unsigned operands computes the gcd; the model's logarithmic fuel suffices *)
+Theorem template_gcd_unsigned_correct : forall a b, 0 <= a -> 0 <= b -> gcd_u a b = MOk (Z.gcd a b).
+Proof. exact gcd_u_correct. Qed.
+Print Assumptions template_gcd_unsigned_correct.
+
+(* multiplication(): k1*k2 (lword) and k3*k4 (ulword) after cross-cancellation *)
+Theorem mul_word_path_no_wrap : forall an ad bn bd, wfW an ad -> wfW bn bd ->
+  -4611686018427387904 <= (an / Z.gcd an bd) * (bn / Z.gcd ad bn) <= 4611686018427387904 /\
+  0 <= (ad / Z.gcd ad bn) * (bd / Z.gcd an bd) <= 18446744065119617025.
+Proof. exact mul_word_path_no_wrap_lemma. Qed.
+Print Assumptions mul_word_path_no_wrap.
+
+(* subtraction(): the commented-out CHECK_SUB_OVERFLOWS_LWORD in the `common != 1` branch is
+   indeed unnecessary *)
+Theorem sub_common_no_overflow : forall an ad bn bd, wfW an ad -> wfW bn bd -> 2 <= Z.gcd ad bd ->
+  LWORD_MIN <= an * (bd / Z.gcd ad bd) - bn * (ad / Z.gcd ad bd) <= LWORD_MAX.
+Proof. exact sub_common_no_overflow_lemma. Qed.
+Print Assumptions sub_common_no_overflow.
+
+(* addition()/subtraction()/subtractionAssign(): the 64-bit gcd assigned to `uword common` is
+   not truncated: it divides gcd(a.den, b.den) *)
+Theorem add_second_gcd_fits_uword : forall an ad bn bd, wfW an ad -> wfW bn bd -> forall s, (s = 1 \/ s = -1) ->
+  Z.gcd (an * (bd / Z.gcd ad bd) + s * (bn * (ad / Z.gcd ad bd))) (ad * (bd / Z.gcd ad bd)) <= UWORD_MAX.
+Proof. exact lcd_gcd_le. Qed.
+Print Assumptions add_second_gcd_fits_uword.
+
+(* division(): the ulword product handed to CHECK_WORD stays below 2^63 (its conversion to lword
+   inside the macro is the identity) *)
+Theorem div_zn_no_wrap : forall an ad bn bd, wfW an ad -> wfW bn bd -> bn <> 0 ->
+  0 <= (Z.abs an / Z.gcd an bn) * (bd / Z.gcd ad bd) <= LWORD_MAX /\
+  0 <= (Z.abs bn / Z.gcd an bn) * (ad / Z.gcd ad bd) <= ULWORD_MAX.
+Proof. exact div_zn_no_wrap_lemma. Qed.
+Print Assumptions div_zn_no_wrap.
+
+(* the overflow-check macros, as regenerated from FastRational.h (Rat/Gen_CheckMacros.v), are the
+   range predicates the model uses, and evaluate without signed overflow themselves *)
+Theorem check_macros_equivalent :
+  (forall t v, run_CHECK_WORD t v = chk_word v) /\
+  (forall t v, CMacro.has_type t v -> run_CHECK_UWORD t v = chk_uword v) /\
+  (forall s1 s2, LWORD_MIN <= s1 <= LWORD_MAX -> LWORD_MIN <= s2 <= LWORD_MAX ->
+     run_CHECK_SUM_OVERFLOWS_LWORD s1 s2 = chk_sum_lword s1 s2) /\
+  (forall s1 s2, LWORD_MIN <= s1 <= LWORD_MAX -> LWORD_MIN <= s2 <= LWORD_MAX ->
+     run_CHECK_SUB_OVERFLOWS_LWORD s1 s2 = chk_sub_lword s1 s2) /\
+  Gen_CheckMacros.GEN_WORD_MIN = WORD_MIN /\ Gen_CheckMacros.GEN_WORD_MAX = WORD_MAX /\
+  Gen_CheckMacros.GEN_UWORD_MAX = UWORD_MAX /\ Gen_CheckMacros.GEN_LWORD_MIN = LWORD_MIN /\
+  Gen_CheckMacros.GEN_LWORD_MAX = LWORD_MAX.
+Proof. exact check_macros_equivalent_lemma. Qed.
+Print Assumptions check_macros_equivalent.
+
+(* ---------------------------------------------------------------------------------------- *)
+(* integer helpers                                                                           *)
+
+Theorem fdiv_q_exact : forall n d zn zd, wf n -> wf d -> value n == zn # 1 -> value d == zd # 1 -> zd <> 0 ->
+  exists x, fr_fdiv_q n d = Ok x /\ wf x /\ value x == (zn / zd) # 1.
+Proof. exact fr_fdiv_q_exact. Qed.
+Print Assumptions fdiv_q_exact.
+
+Theorem round_to_int_exact : forall n, wf n ->
+  exists x, fr_round_to_int n = Ok x /\ wf x /\ value x == Qfloor (value n + (1 # 2)) # 1.
+Proof. exact fr_round_to_int_exact. Qed.
+Print Assumptions round_to_int_exact.
+
+(* gcd / lcm.  Full statement (the property):
+     forall a b integers, gcd a b = Ok x with value x == Z.gcd za zb # 1   (same for lcm).
+   It is FALSE for the present word path (signed template gcd): gcd_word_path_refuted,
+   lcm_word_path_refuted, int_min_ub_refuted.  Proved instead: the present code whenever an operand
+   is big or both are non-negative (`_partial`; every caller in src/ passes positive numbers), and
+   the full statement for the repaired word path of proposed_fixes/C15_gcd_lcm_sign.diff. *)
+Theorem gcd_lcm_exact_partial : forall a b za zb, wf a -> wf b -> value a == za # 1 -> value b == zb # 1 ->
+  (match a, b with Word _ _, Word _ _ => 0 <= za /\ 0 <= zb | _, _ => True end) ->
+  (exists x, fr_gcd a b = Ok x /\ wf x /\ value x == Z.gcd za zb # 1) /\
+  (exists x, fr_lcm a b = Ok x /\ wf x /\ value x == Z.lcm za zb # 1).
+Proof.
+  intros a b za zb Ha Hb Ea Eb Hs.
+  split; [exact (fr_gcd_exact_partial a b za zb Ha Hb Ea Eb Hs) | exact (fr_lcm_exact_partial a b za zb Ha Hb Ea Eb Hs)].
+Qed.
+Print Assumptions gcd_lcm_exact_partial.
+
+Theorem gcd_lcm_fixed_exact : forall a b za zb, wf a -> wf b -> value a == za # 1 -> value b == zb # 1 ->
+  (exists x, fr_gcd_fixed a b = Ok x /\ wf x /\ value x == Z.gcd za zb # 1) /\
+  (exists x, fr_lcm_fixed a b = Ok x /\ wf x /\ value x == Z.lcm za zb # 1).
+Proof.
+  intros a b za zb Ha Hb Ea Eb.
+  split; [exact (fr_gcd_fixed_exact a b za zb Ha Hb Ea Eb) | exact (fr_lcm_fixed_exact a b za zb Ha Hb Ea Eb)].
+Qed.
+Print Assumptions gcd_lcm_fixed_exact.
+
+Theorem gcd_word_path_refuted :
+  exists a b r, wf a /\ wf b /\ value a == 4 # 1 /\ value b == (-6) # 1 /\
+                fr_gcd a b = Ok r /\ ~ value r == Z.gcd 4 (-6) # 1.
+Proof. exact fr_gcd_word_path_refuted_lemma. Qed.
+Print Assumptions gcd_word_path_refuted.
+
+Theorem lcm_word_path_refuted :
+  exists a b r, wf a /\ wf b /\ value a == (-4) # 1 /\ value b == 6 # 1 /\
+                fr_lcm a b = Ok r /\ ~ value r == Z.lcm (-4) 6 # 1.
+Proof. exact fr_lcm_word_path_refuted_lemma. Qed.
+Print Assumptions lcm_word_path_refuted.
+
+(* operator%.  Full statement: forall integers a, d <> 0: a % d = Ok x, value x == (a mod d) # 1
+   (remainder of the floor division, sign of d).  FALSE on the word path (mod_word_path_refuted,
+   int_min_ub_refuted); proved for the GMP path (some operand big) and for the word path on
+   a >= 0, d > 0. *)
+Theorem mod_exact_partial :
+  (forall a d, wf a -> wf d -> ~ value d == 0 ->
+     (match a, d with Word _ _, Word _ _ => False | _, _ => True end) ->
+     exists x, fr_mod a d = Ok x /\ wf x /\ value x == value a - (Qfloor (value a / value d) # 1) * value d) /\
+  (forall zn zd, zd <> 0 -> (zn # 1) - (Qfloor ((zn # 1) / (zd # 1)) # 1) * (zd # 1) == (zn mod zd) # 1) /\
+  (forall zn zd, 0 <= zn <= WORD_MAX -> 0 < zd <= WORD_MAX ->
+     exists x, fr_mod (Word zn 1) (Word zd 1) = Ok x /\ wf x /\ value x == (zn mod zd) # 1).
+Proof.
+  split; [exact fr_mod_big_path_exact|]. split; [exact floor_mod_int | exact fr_mod_word_nonneg_exact].
+Qed.
+Print Assumptions mod_exact_partial.
+
+Theorem mod_word_path_refuted :
+  exists a d r, wf a /\ wf d /\ value a == (-7) # 1 /\ value d == 3 # 1 /\
+                fr_mod a d = Ok r /\ ~ value r == ((-7) mod 3) # 1.
+Proof. exact fr_mod_word_path_refuted_lemma. Qed.
+Print Assumptions mod_word_path_refuted.
+
+(* divexact.  Full statement: forall integers n, d <> 0 with d | n.  FALSE for (INT_MIN, -1) on the
+   word path (int_min_ub_refuted); proved for all other operands. *)
+Theorem divexact_exact_partial : forall n d zn zd, wf n -> wf d -> value n == zn # 1 -> value d == zd # 1 ->
+  zd <> 0 -> (zd | zn) -> ~ (zn = WORD_MIN /\ zd = -1) ->
+  exists x, fr_divexact n d = Ok x /\ wf x /\ value x == (zn / zd) # 1.
+Proof. exact fr_divexact_exact_partial. Qed.
+Print Assumptions divexact_exact_partial.
+
+(* INT_MIN and -1 as word operands: gcd, operator% and divexact evaluate INT_MIN % -1 or
+   INT_MIN / -1 in int (undefined behaviour; SIGFPE on x86-64) *)
+Theorem int_min_ub_refuted :
+  wf (Word WORD_MIN 1) /\ wf (Word (-1) 1) /\
+  fr_gcd (Word WORD_MIN 1) (Word (-1) 1) = Err UB_overflow /\
+  fr_mod (Word WORD_MIN 1) (Word (-1) 1) = Err UB_overflow /\
+  fr_divexact (Word WORD_MIN 1) (Word (-1) 1) = Err UB_overflow.
+Proof.
+  destruct fr_gcd_int_min_refuted_lemma as (H1 & H2 & H3). destruct fr_mod_int_min_refuted_lemma as (_ & _ & H4).
+  destruct fr_divexact_int_min_refuted_lemma as (_ & _ & _ & H5). tauto.
+Qed.
+Print Assumptions int_min_ub_refuted.
+
+(* ---------------------------------------------------------------------------------------- *)
+(* non-vacuity: the hypotheses are satisfiable by non-trivial values and every path is taken  *)
+
+(* word fast path with cancellation: 2147483647/4294967295 + 1/4294967295 = 2147483648/4294967295,
+   which no longer fits a word: the result is a big number *)
+Example add_crosses_word_bound :
+  wf (Word 2147483647 4294967295) /\ wf (Word 1 4294967295) /\
+  fr_add (Word 2147483647 4294967295) (Word 1 4294967295) = Ok (Big (2147483648 # 4294967295)).
+Proof. repeat split; vm_compute; intuition congruence. Qed.
+
+(* the comment in subtraction(): "-2147483645/4294967294 - 2147483647/4294967295 underflows lword":
+   CHECK_SUB_OVERFLOWS_LWORD sends it to GMP, the result is exact *)
+Example sub_underflow_goes_to_gmp :
+  fr_sub (Word (-2147483645) 4294967294) (Word 2147483647 4294967295)
+  = Ok (Big (-18446744050087231493 # 18446744060824649730)).
 Proof. vm_compute. reflexivity. Qed.
-Print Assumptions gcd_word_sign_refuted_tmp.
+
+(* a big operand and a result that fits a word again: 2^32/3 * 3/2^31 = 2 *)
+Example mul_back_to_word :
+  wf (Big (4294967296 # 3)) /\ wf (Word 3 2147483648) /\
+  fr_mul (Big (4294967296 # 3)) (Word 3 2147483648) = Ok (Word 2 1).
+Proof. repeat split; vm_compute; intuition congruence. Qed.
+
+Example negate_int_min : fr_negate (Word WORD_MIN 1) = Ok (Big (2147483648 # 1)) /\ fr_neg (Big (2147483648 # 1)) = Ok (Word WORD_MIN 1).
+Proof. split; vm_compute; reflexivity. Qed.
+
+Example division_sign_and_cancel : fr_div (Word (-6) 35) (Word 4 (-5 + 26)) = Ok (Word (-9) 10).
+Proof. vm_compute. reflexivity. Qed.
+
+Example floor_ceil_negative : fr_floor (Word (-7) 2) = Ok (Word (-4) 1) /\ fr_ceil (Word (-7) 2) = Ok (Word (-3) 1).
+Proof. split; vm_compute; reflexivity. Qed.
+
+Example gcd_fixed_on_the_witness : fr_gcd_fixed (Word 4 1) (Word (-6) 1) = Ok (Word 2 1) /\ fr_gcd (Word 4 1) (Word (-6) 1) = Ok (Word (-2) 1).
+Proof. split; vm_compute; reflexivity. Qed.
+
+Example hash_word_and_big : fr_hash (Word 1 2) = 63 /\ fr_hash (Big (18446744073709551617 # 1)) = 360903513.
+Proof. split; vm_compute; reflexivity. Qed.
